@@ -37,8 +37,20 @@ def doErr (s : State) (n sched : String) : State × String :=
     else (s, "bad-op")
   | none => (s, "bad-op")
 
+def doErrOne (s : State) (n sched : String) : State × String :=
+  match parseSched sched with
+  | some sc =>
+    if validName n then
+      if s.waiting.any (fun e => e.n = n) then
+        (settle (Aurora.Subscribe.step s (.errOne n)) sc, "ok")
+      else (s, "nowait")
+    else (s, "bad-op")
+  | none => (s, "bad-op")
+
 def step (s : State) (op : List String) : State × String :=
   match op with
+  | ["errone", n] => doErrOne s n ""
+  | ["errone", n, sched] => doErrOne s n sched
   | ["sub", n, ns, kind, param] => doSub s n ns kind param ""
   | ["sub", n, ns, kind, param, sched] => doSub s n ns kind param sched
   | ["err", n] => doErr s n ""
